@@ -67,3 +67,67 @@ package cluster
 //@   loop 1 invariant dm.updatech != nil && dm.teardownch != nil && ChanKind[dm.updatech] == 0 && ChanKind[dm.teardownch] == 0
 
 //@ property C14 := (*deploymentManager).run#*, (*deploymentManager).startDeploy#*, (*deploymentManager).startTeardown#*
+
+// ---- C12: the external-port budget of the admission check ---------------------------------------------------
+//@ import atypes "github.com/ovrclk/akash/types"
+//@ import ctypes "github.com/ovrclk/akash/provider/cluster/types"
+// the resource records of a group (GetResources is a getter; A-GETTER)
+//@ spec grpRes(g: iface): []atypes.Resources
+//@ extern atypes.(ResourceGroup).GetResources(recv)
+//@   pure
+//@   ensures result == grpRes(recv) && 0 <= len(result)
+//@ extern ctypes.(Node).Available(recv)
+//@   pure
+//@ extern ctypes.(Node).Allocateable(recv)
+//@   pure
+//@ extern ctypes.(Node).ID(recv)
+//@   pure
+//@ func (*reservation).Resources
+//@   pure
+//@   requires r != nil
+//@   ensures result == r.resources
+// endpoints declared by the first k resource records of a list
+//@ spec portsUpTo(rs: []atypes.Resources, k: int): int = ite(k <= 0, 0, portsUpTo(rs, k - 1) + ite(len(rs[k-1].Resources.Endpoints) >= 0, len(rs[k-1].Resources.Endpoints), 0))
+// endpoints a resource group asks for: a function of the group (its records are not mutated while a reservation is held)
+//@ spec portsOfGrp(g: iface): int
+// endpoints of the not yet deployed ones among the first k reservations
+//@ spec pendingPorts(rs: []*reservation, k: int): int = ite(k <= 0, 0, pendingPorts(rs, k - 1) + ite(rs[k-1].allocated, 0, portsOfGrp(rs[k-1].resources)))
+
+//@ func reservationCountEndpoints
+//@   requires reservation != nil
+//@   modifies nothing
+//@   loop 1 modifies nothing
+//@   loop 1 invariant 0 <= iter && iter <= len(resources) && externalPortCount == portsUpTo(resources, iter) && externalPortCount >= 0
+//@   ensures [count] result == portsUpTo(grpRes(reservation.resources), len(grpRes(reservation.resources)))
+//@   ensures assumed result == portsOfGrp(reservation.resources) && result >= 0
+
+//@ func NewNode
+//@   trusted
+//@   modifies nothing
+
+// a reservation is charged its endpoints against the free external ports, and refused if they do not fit
+//@ func reservationAdjustInventory
+//@   requires reservation != nil && externalPortsAvailable >= 0
+//@   modifies nothing
+//@   loop 1 modifies inventory[**], resources[**]
+//@   loop 1 invariant 0 <= iter && fresh(resources) && fresh(inventory) && 0 <= len(inventory) && len(inventory) <= cap(inventory) && 0 <= len(resources) && len(resources) <= cap(resources)
+//@   loop 1 invariant arr(inventory) == atloop(arr(inventory)) || freshloop(inventory)
+//@   loop 1 invariant arr(resources) == atloop(arr(resources)) || freshloop(resources)
+//@   loop 2 modifies curResources[**]
+//@   loop 2 invariant 0 <= iter && fresh(curResources) && 0 <= len(curResources) && len(curResources) <= cap(curResources)
+//@   loop 2 invariant arr(curResources) == atloop(arr(curResources)) || freshloop(curResources)
+//@   loop 3 modifies nothing
+//@   loop 3 invariant true
+//@   ensures [short] old(externalPortsAvailable) < portsOfGrp(reservation.resources) ==> !result2
+//@   ensures [charged] result2 ==> result1 == old(externalPortsAvailable) - portsOfGrp(reservation.resources) && result1 >= 0
+
+// admission: all pending reservations together with the new one fit into the free external ports
+//@ func reservationAllocateable
+//@   requires newReservation != nil && externalPortsAvailable >= 0 && (forall i: int {reservations[i]} :: 0 <= i && i < len(reservations) ==> reservations[i] != nil)
+//@   modifies nothing
+//@   loop 1 modifies nothing
+//@   loop 1 invariant 0 <= iter && iter <= len(reservations)
+//@   loop 1 invariant externalPortsAvailable == old(externalPortsAvailable) - pendingPorts(reservations, iter) && externalPortsAvailable >= 0
+//@   ensures [ports] result ==> pendingPorts(reservations, len(reservations)) + portsOfGrp(newReservation.resources) <= old(externalPortsAvailable)
+
+//@ property C12 := reservationCountEndpoints#*, reservationAdjustInventory#*, reservationAllocateable#*
